@@ -238,7 +238,8 @@ ConcatChecks(e) ==
      <<"concat.one_pair_per_fragment", Len(e.pairs) = n>>,
      <<"concat.pairs", e.pairs = want>>,
      <<"concat.consecutive", \A i \in 1..(Len(e.pairs) - 1) : e.pairs[i + 1][1] = e.pairs[i][2] + 1>>,
-     <<"concat.last_is_measure_count", Len(e.pairs) > 0 => e.pairs[Len(e.pairs)][2] = Len(e.mst)>>,
+     <<"concat.last_is_measure_count", Len(e.pairs) > 0 => (e.pairs[Len(e.pairs)][2] = Len(e.mst)
+                                                            /\ ("mcount_after" \in DOMAIN e => e.pairs[Len(e.pairs)][2] = e.mcount_after))>>,
      \* relative to the full export: judged when the full export (e.base) is what the specification says
      <<"concat.pair_addresses_fragment", ("base" \in DOMAIN e /\ ~BaseOK(e.base)) \/ (Len(e.exports) = n /\ \A i \in 1..n :
           e.exports[i].ok /\ DataLines(e.exports[i].grid) = FragmentDataLines(e.ends, i, DefaultOpts))>> >>
